@@ -524,6 +524,19 @@ fn specs(seed: u64, tier: &str) -> Vec<Spec> {
             id += 1;
         }
     }
+    // (d) corpus: the minimal inputs of the defects found so far (F3 k-d tree border, F22 ball tree k = 0,
+    //     F38 ball tree bound rounding), kept as regression cases
+    for (x, q, radii, leaf) in [
+        (vec![vec![0.0, 0.0], vec![1.0, 0.0]], vec![0.0, 0.0], vec![RadSpec::Abs(1.0), RadSpec::DistTo(1, 0, 1.0)], 16usize),
+        (vec![vec![1.0, 1.0], vec![2.0, 2.0]], vec![0.0, 0.0], vec![RadSpec::DistTo(0, 0, 1.0), RadSpec::DistTo(1, 0, 1.0)], 1),
+        (vec![vec![0.0, 0.0]], vec![0.5, 0.5], vec![RadSpec::DistTo(0, 0, 1.0), RadSpec::DistTo(0, 1, 1.0), RadSpec::DistTo(0, -1, 1.0)], 16),
+    ].iter() {
+        for met in mets.iter() {
+            v.push(Spec { id, stream: "corpus", family: "corpus".into(), met: *met, f32_: false, x: x.clone(), dim: 2, leaf: *leaf,
+                          queries: vec![QuerySpec { q: q.clone(), ks: vec![0, 1, 2, 3], radii: radii.clone() }], ship_coords: true });
+            id += 1;
+        }
+    }
     v
 }
 
